@@ -598,7 +598,7 @@ func nCases(tier string) int {
 	if tier == "thorough" {
 		return nSpecial + nCells + nPairs + nTriples + 300000
 	}
-	return nSpecial + nCells + nPairs + 30000
+	return nSpecial + nCells + nPairs + 60000
 }
 
 func oneLine(s string) string { return strings.ReplaceAll(s, "\n", " ") }
@@ -791,7 +791,7 @@ func init() {
 	fw.Register(fw.Spec[Case]{
 		ID: "C07",
 		Rule: "programs = an exit site (normal completion, return-from, return, go forward/backward, error of 4 classes) wrapped in a chain of (form kind, position) cells " +
-			"(let let* progn when unless if cond case and or dolist dotimes do do* multiple-value-bind setq, call argument, funcall/mapcar lambda body, defun body, closure passed to another function, " +
+			"(let let* progn when unless if cond case and or dolist dotimes do do* prog prog* loop multiple-value-bind setq, call argument, funcall/mapcar/mapc/mapl/maplist lambda body, defun body, closure passed to another function, " +
 			"block tagbody unwind-protect with-mutex-lock ignore-errors recover with-open-file; every evaluated position of each); every other evaluated position holds a trace marker, cleanup forms hold cleanup markers. " +
 			"block 1: fixed lexical-scoping, shadowing and cleanup-order programs; block 2: every cell x every exit kind with one intervening form, directly inside the target and separated from it by a let " +
 			"(the coverage table; includes the constructs listed as findings); block 3: every ordered pair of cells x 9 exit kinds, exit through both, or through the first with normal completion through the second " +
@@ -799,7 +799,8 @@ func init() {
 			"then seeded random chains of up to 9 layers (at most 5 nesting forms) with guards (exit taken on the Nth evaluation inside loops), a second exit after the first has landed, " +
 			"side trees with their own self-contained exits in sibling and cleanup positions, input and output streams; 1 in 8 random programs ignores the avoid set. " +
 			"distinct = distinct program text; non-trivial = the oracle judges the program and its trace has at least 2 markers. " +
-			"avoid set: the " + fmt.Sprint(len(keys)) + " (exit kind, cell) constructs listed in findings/C07.json (counter avoided:...); exits out of unwind-protect cleanup forms are outside the property and not judged",
+			"avoid set: the " + fmt.Sprint(len(keys)) + " (exit kind, cell) constructs still listed open in findings/C07.json (mapc/mapl/maplist lambda bodies, return in a prog init form, go with no lexical target; counter avoided:...); " +
+			"the 110 cells repaired in /repo are back in the clean stream; exits out of unwind-protect cleanup forms and return-from value forms are outside the property and not judged",
 		N:        nCases,
 		Gen:      gen,
 		Exec:     exec,
